@@ -3,7 +3,7 @@ from .. import cppfull
 
 
 def run(ctx):
-    cppfull.run_cpp(ctx, ['C05'], ops=('overfill', 'clear', 'fresh'))
+    cppfull.run_cpp(ctx, ['C05'], ops=('overfill', 'clear', 'fresh', 'build'))
     ctx.assumptions += ['values are delivered to the C++ object by decoding canonical bytes, then mutated (limited vectors '
                         'resized past their limit; arrays cleared and optionals reset); the default-constructed object of every type is '
                         'reported without any decode (op fresh)']
